@@ -43,6 +43,21 @@ CHECKS["C16"] = dict(
          "shape = input shape, exact identity guard, both copies identical. FFTs are parameters.",
     design="5 C16", technique="Lean 4 proof over generated Butterworth kernels + weight/shape correspondence")
 
+CHECKS["C05"] = dict(
+    text="Theorems for every max_shifts m >= 0 (on or off the 1/20 grid), every box and peak: pad width "
+         ">= 2 and cropped side 2*int(m)+1; refinement mesh non-empty; every node s+j/20 in [-m,m]; "
+         "returned shift is a node; nodes inside the un-cropped response; FSC landscape geometry; PCC "
+         "first crop and refinement slice non-empty, in bounds, refined shift in [-m,m]. "
+         "Finite-score clause for degenerate FSC input is a recorded finding.",
+    design="5 C05", technique="Lean 4 proof over generated mesh/crop kernels + differential correspondence")
+CHECKS["C04"] = dict(
+    text="PARTIAL proof: index<->displacement bookkeeping, cumulative-sum window sums, integer "
+         "displacement = global maximum with response 1 (Cauchy-Schwarz over Mathlib Finset sums), mesh "
+         "resolution < 1/20 px, PCC grid spacing 1/u are theorems for all inputs; the 0.1 px / 0.5 px "
+         "accuracy for fractional displacements depends on scipy's spline/matrix-DFT numerics and is "
+         "only tested on the real code (labelled a test).",
+    design="5 C04", technique="Lean 4 proof (partial) + exact rational landscape model vs real landscape")
+
 NOT_YET = {}
 
 
